@@ -782,6 +782,28 @@ fn injections(s: &mut Session, rng: &mut Rng, run: u32) {
         b.insert(0, (c_name(&a16[5].0, 9), adc_short(rng, 128 + 9)));
         add(s, "empty-after-delay", run, &b, Expect::Consistent(&sp));
     }
+    // --- pad waveforms with exactly delay-1, delay, delay+1 and 1 samples: nothing (or one sample) is
+    //     left after the delay; a pad with nothing left stays empty (seed C10-4 stored Some(empty))
+    {
+        let installed = installed_boards(run);
+        if !installed.is_empty() {
+            let dp = delay_of(run, true);
+            for req in [dp.saturating_sub(1).max(1), dp.max(1), dp + 1, 1] {
+                let board = *rng.pick(&installed);
+                let chip = rng.below(4) as u8;
+                let mut sp = spec.clone();
+                sp.pads = vec![PwbSpec {
+                    board,
+                    chip,
+                    req: req as u16,
+                    sent: (1..=79u16).map(|i| (i, wave(rng, req))).collect(),
+                    chunk_size: *rng.pick(&[1400usize, 2048, 700]),
+                }];
+                let b = spec_banks(rng, &sp);
+                add(s, "pad-empty-after-delay", run, &b, Expect::Consistent(&sp));
+            }
+        }
+    }
 }
 
 /// The four input classes of the former finding F6, their counterparts with long waveforms and
